@@ -60,9 +60,20 @@ def main():
         if h is None:
             res["detail"] = "no native replay handler for %r" % i.get("kind")
         else:
-            with api.quiet():
-                ok, detail = h(i, inp.get("obligation"))
-            res = {"reproduced": bool(ok), "detail": detail}
+            ob = inp.get("obligation") or ""
+            try:
+                with api.quiet():
+                    ok, detail = h(i, ob)
+                res = {"reproduced": bool(ok), "detail": detail}
+                if "returns-normally#" in ob:
+                    res = {"reproduced": False, "detail": {"note": "the real function returned normally on this input", "handler": detail}}
+            except Exception as e:  # noqa
+                # obligation `returns-normally#<Exc>`: the contract says the real function does not raise under its precondition
+                exc = ob.split("returns-normally#")[1].split("@")[0] if "returns-normally#" in ob else None
+                if exc is not None and type(e).__name__ == exc.split(".")[-1]:
+                    res = {"reproduced": True, "detail": "the real function raises %s: %s" % (type(e).__name__, e)}
+                else:
+                    raise
     except Exception as e:  # noqa
         res = {"reproduced": False, "detail": "replay crashed: %s: %s\n%s" % (type(e).__name__, e, traceback.format_exc(limit=6))}
     json.dump(res, open(sys.argv[2], "w"), indent=1, default=str)
